@@ -12,7 +12,9 @@ use crate::trace::{Op, Outcome, Trace, Violation};
 use anstream::adapter::{strip_bytes, strip_str, StripBytes, StripStr, StrippedBytes, WinconBytes};
 use std::io::Write;
 
-pub const SURFACES: [&str; 12] = [
+pub const SURFACES: [&str; 14] = [
+    "stream_write_fmt_literal_vec",
+    "auto_never_write_fmt_literal_box",
     "strip_str",
     "strip_bytes",
     "stripped_bytes_extend",
@@ -49,6 +51,16 @@ fn flavor_of(surface: &str, rng: &mut Rng) -> Flavor {
 
 pub fn generate(rng: &mut Rng, seed: u64, run: u64, max_len: usize) -> Trace {
     let surface = *rng.pick(&SURFACES);
+    if surface.contains("literal") {
+        // chunks are entries of the literal-format dictionary, each written by its own
+        // `write!(s, "<literal>")`
+        let (bytes, ops) = crate::streams::gen_literal_history(rng, 16);
+        let ops = ops.into_iter().filter(|o| !matches!(o, Op::Flush)).map(|o| match o {
+            Op::FmtLit(k) => Op::FmtLit(k),
+            other => Op::Chunk(other.total()),
+        }).collect();
+        return Trace { prop: "C03".into(), surface: surface.into(), input: bytes, ops, faults: vec![], params: vec![], seed, run };
+    }
     let flavor = flavor_of(surface, rng);
     let wl = gen::workload(rng, flavor, max_len);
     let char_safe = flavor != Flavor::Bytes && matches!(surface, "strip_str" | "stream_write_fmt_vec" | "auto_never_write_fmt_box");
@@ -181,7 +193,7 @@ fn run_surface(surface: &str, input: &[u8], ends: &[usize]) -> Res {
                     let n = s.write(rest).unwrap();
                     rest = &rest[n.min(rest.len())..];
                     guard += 1;
-                    if guard > 10_000 {
+                    if guard > 2 * c.len() + 64 {
                         std::panic::panic_any(crate::simw::StepBudgetExceeded);
                     }
                 }
@@ -240,12 +252,12 @@ fn run_surface(surface: &str, input: &[u8], ends: &[usize]) -> Res {
                     continue;
                 }
                 let mut slices = vec![std::io::IoSlice::new(&cs[idx][off..])];
-                for c in &cs[idx + 1..] {
+                for c in cs[idx + 1..].iter().take(7) {
                     slices.push(std::io::IoSlice::new(c));
                 }
                 let mut n = s.write_vectored(&slices).unwrap();
                 guard += 1;
-                if guard > 10_000 || n == 0 {
+                if guard > 4 * input.len() + 64 || n == 0 {
                     std::panic::panic_any(crate::simw::StepBudgetExceeded);
                 }
                 while n > 0 && idx < cs.len() {
@@ -298,6 +310,10 @@ fn run_surface(surface: &str, input: &[u8], ends: &[usize]) -> Res {
                 Res::Bytes(a, strip_str(whole).to_string().into_bytes())
             }
         }
+        "stream_write_fmt_literal_vec" | "auto_never_write_fmt_literal_box" => {
+            // handled by `run_literal` (needs the ops, not just the chunk ends)
+            Res::Skipped
+        }
         "auto_never_write_all_vec" => {
             let mut s = anstream::AutoStream::never(Vec::new());
             for c in &cs {
@@ -319,6 +335,40 @@ fn run_surface(surface: &str, input: &[u8], ends: &[usize]) -> Res {
             Res::Styled(got, exp)
         }
         _ => Res::Skipped,
+    }
+}
+
+/// Literal-format surfaces: every op writes its slice of the input, `FmtLit(k)` through
+/// `write!(s, "<literal k>")` when the input really holds that literal there.
+fn run_literal(t: &Trace) -> Res {
+    use crate::streams::{write_lit, LITS};
+    let input = &t.input;
+    let drive = |s: &mut dyn Write| {
+        let mut pos = 0usize;
+        for op in &t.ops {
+            let end = (pos + op.total()).min(input.len());
+            let buf = &input[pos..end];
+            match op {
+                Op::FmtLit(k) if LITS.get(*k).map(|l| l.as_bytes() == buf).unwrap_or(false) => write_lit(s, *k).unwrap(),
+                _ => s.write_all(buf).unwrap(),
+            }
+            pos = end;
+        }
+        s.write_all(&input[pos..]).unwrap();
+    };
+    if t.surface == "stream_write_fmt_literal_vec" {
+        let mut s = anstream::StripStream::new(Vec::new());
+        drive(&mut s);
+        let mut o = anstream::StripStream::new(Vec::new());
+        o.write_all(input).unwrap();
+        Res::Bytes(s.into_inner(), o.into_inner())
+    } else {
+        let w = SimWriter::new(vec![], false);
+        let boxed: Box<dyn Write> = Box::new(w.clone());
+        let mut s = anstream::AutoStream::never(boxed);
+        drive(&mut s);
+        let a = w.st().accepted.clone();
+        Res::Bytes(a, strip_bytes(input).into_vec())
     }
 }
 
@@ -359,7 +409,11 @@ pub fn execute(t: &Trace, st: &mut Stats, record: bool) -> Outcome {
     }
     out.nontrivial = nontrivial;
 
-    let res = catch(|| run_surface(&t.surface, &t.input, &ends));
+    let res = if t.surface.contains("literal") {
+        catch(|| run_literal(t))
+    } else {
+        catch(|| run_surface(&t.surface, &t.input, &ends))
+    };
     match res {
         Err(Caught::Panic(msg)) => {
             out.violation = Some(Violation { class: "panic".into(), detail: msg });
